@@ -258,6 +258,14 @@ parse_next_record_header:
     */
     if (ssl->rec.type == SSL_RECORD_TYPE_CHANGE_CIPHER_SPEC)
     {
+        if (ssl->hsState == SSL_HS_DONE)
+        {
+            /* Only tolerated until the peer's Finished has been received
+               (RFC 8446, 5.): nothing unprotected is accepted after that. */
+            ssl->err = SSL_ALERT_UNEXPECTED_MESSAGE;
+            psTraceErrr("change_cipher_spec after the handshake\n");
+            goto encodeResponse;
+        }
         rc = tls13ParseChangeCipherSpec(ssl, &pb, requiredLen);
         HANDLE_PARSE_RC(rc, SSL_ALERT_ILLEGAL_PARAMETER);
         psTraceInfo("Ignoring change_cipher_spec...\n");
@@ -283,9 +291,12 @@ parse_next_record_header:
     }
     else if (ssl->rec.type == SSL_RECORD_TYPE_ALERT)
     {
-        if (ssl->rec.len < 2 + TLS_GCM_TAG_LEN)
+        if (ssl->rec.len < 2 + TLS_GCM_TAG_LEN &&
+                !(DECRYPTING_RECORDS(ssl) && ssl->hsState == SSL_HS_DONE))
         {
-            /* If it's this short, it cannot be an encrypted. */
+            /* If it's this short, it cannot be an encrypted.  (Once the
+               handshake is complete the peer has our keys: a short record
+               then simply fails to decrypt below.) */
             rc = tls13ParseAndHandleAlert(ssl,
                     &pb,
                     in,
